@@ -123,8 +123,9 @@ do_filter (pixman_image_t *im, int v, int cv)
     static const pixman_fixed_t sep[6] = { pixman_fixed_1, pixman_fixed_1, 0, 0, pixman_fixed_1, pixman_fixed_1 };
     if (v == 0)
 	return pixman_image_set_filter (im, (cv & 1) ? PIXMAN_FILTER_BILINEAR : PIXMAN_FILTER_NEAREST, NULL, 0);
-    switch (cv % 3)
+    switch (cv % 4)
     {
+    case 3: return pixman_image_set_filter (im, PIXMAN_FILTER_GOOD, c1, 0);   /* parameters given, none of them: a block of size 0 is owned */
     case 0: return pixman_image_set_filter (im, PIXMAN_FILTER_CONVOLUTION, c1, 3);
     case 1: return pixman_image_set_filter (im, PIXMAN_FILTER_CONVOLUTION, c3, 11);
     default: return pixman_image_set_filter (im, PIXMAN_FILTER_SEPARABLE_CONVOLUTION, sep, 6);
